@@ -1425,9 +1425,11 @@ func (e *sysEnv) smtpOpFav(r *rand.Rand, fav string) {
 	s := e.s
 	g := &smtpGen{r: r, env: s.env, errRate: 8, favour: fav}
 	before := map[string][]string{} // every mailbox's listing before the connection (operations of a scenario do not overlap)
+	sizeOf := map[string]int{}      // mailbox \x00 id -> size, of everything listed before
 	_ = s.store.VisitMailboxes(func(ms []storage.Message) bool {
 		for _, m := range ms {
 			before[m.Mailbox()] = append(before[m.Mailbox()], m.ID())
+			sizeOf[m.Mailbox()+"\x00"+m.ID()] = int(m.Size())
 		}
 		return true
 	})
@@ -1589,6 +1591,57 @@ func (e *sysEnv) smtpOpFav(r *rand.Rand, fav string) {
 				if over := len(before[box]) + len(st) - s.cap; over > 0 && len(goneIn[box]) == 0 {
 					e.fail("delivery-evicts-only-over-cap", fmt.Sprintf("mailbox %q listed %d message(s) before the connection and received %d (cap %d) but nothing was announced deleted", box, len(before[box]), len(st), s.cap), "")
 				}
+			}
+		}
+	}
+	// ---- implementation only, stores with a byte limit: whatever a connection takes from a mailbox beyond what that mailbox's cap requires
+	// had to go for the limit — it would not fit beside what the store holds afterwards (C01: no other mailbox changes; C08: only what is necessary)
+	if s.maxkb > 0 {
+		live := 0
+		_ = s.store.VisitMailboxes(func(ms []storage.Message) bool {
+			for _, m := range ms {
+				live += int(m.Size())
+			}
+			return true
+		})
+		storedIn, goneIn := map[string][]string{}, map[string][]string{}
+		for _, ev := range seg {
+			if ev.kind == 's' {
+				storedIn[ev.box] = append(storedIn[ev.box], ev.id)
+			} else {
+				goneIn[ev.box] = append(goneIn[ev.box], ev.id)
+			}
+		}
+		// judged where the arithmetic is unambiguous: ONE message was stored by this connection and it is still there, so every eviction happened
+		// inside that one AddMessage, oldest first, until the store fitted again: the store as it is now plus the LARGEST of the evicted messages
+		// exceeds the limit (the last one evicted had to go)
+		nStored, newLive := 0, false
+		for box, ids := range storedIn {
+			nStored += len(ids)
+			for _, id := range ids {
+				if m, err := s.store.GetMessage(box, id); err == nil && m != nil {
+					newLive = true
+				}
+			}
+		}
+		if nStored == 1 && newLive {
+			maxSz, which := -1, ""
+			for box, g := range goneIn {
+				all := append(append([]string{}, before[box]...), storedIn[box]...)
+				byCap := map[string]bool{}
+				if s.cap > 0 && len(all) > s.cap {
+					for _, id := range all[:len(all)-s.cap] {
+						byCap[id] = true
+					}
+				}
+				for _, id := range g {
+					if sz, known := sizeOf[box+"\x00"+id]; known && !byCap[id] && sz > maxSz {
+						maxSz, which = sz, box+"/"+id
+					}
+				}
+			}
+			if maxSz >= 0 && live+maxSz <= s.maxkb*1024 {
+				e.fail("delivery-evicts-only-over-limit", fmt.Sprintf("one message was delivered and is listed; beyond what the mailbox caps (%d) require the connection cost the store other messages, the largest of them %s (%d bytes) — yet the store now holds %d of %d bytes: that message still fits, nothing had to go for the limit", s.cap, which, maxSz, live, s.maxkb*1024), "")
 			}
 		}
 	}
